@@ -356,6 +356,8 @@ class Seams:
 
     # --- builtins.open
     def open(self, file, mode="r", *a, **kw):
+        if not S.sim and isinstance(file, int) and file in STDIO:
+            return _stdio_open(file, mode, *a, **kw)
         if S.sim or not self.mine(file):
             return _orig["open"](file, mode, *a, **kw)
         S.sim += 1
@@ -479,6 +481,9 @@ class Seams:
         _orig.update(open=builtins.open, listdir=os.listdir, walk=os.walk,
                      isfile=os.path.isfile, isdir=os.path.isdir)
         builtins.open = self.open
+        io.open = self.open
+        os.read = _os_read
+        os.write = _os_write
         os.listdir = self.listdir
         os.walk = self.walk
         os.path.isfile = self.isfile
@@ -875,10 +880,98 @@ def _exc_by_name(name: str):
 # byte pipes
 
 
+# The process's standard streams as the server sees them: whichever way fortls.main() gets at
+# them (sys.stdin.buffer, .buffer.raw, open(fd)/os.fdopen(fd), os.read) it reaches the simulated
+# stream, with the buffering it asked for.
+STDIO = {}  # fd -> SimRaw (0) / SimWriter (1)
+
+
+def _stdio_open(fd, mode="r", buffering=-1, encoding=None, errors=None, newline=None, closefd=True,
+                opener=None):
+    obj = STDIO[fd]
+    if fd == 0:
+        if buffering == 0:
+            return obj
+        raw = io.BufferedReader(obj, buffer_size=buffering if buffering > 1 else io.DEFAULT_BUFFER_SIZE)
+        if "b" in mode:
+            return raw
+        return io.TextIOWrapper(raw, encoding=encoding or "utf-8", errors=errors, newline=newline)
+    if "b" in mode:
+        return obj
+    return SimStdout(obj)
+
+
+def _os_read(fd, n):
+    if not S.sim and fd in STDIO and fd == 0:
+        return STDIO[0].read(n) or b""
+    return _orig_os_read(fd, n)
+
+
+def _os_write(fd, data):
+    if not S.sim and fd in STDIO and fd == 1:
+        return STDIO[1].write(data)
+    return _orig_os_write(fd, data)
+
+
+_orig_os_read = os.read
+_orig_os_write = os.write
+
+
+class SimStdin:
+    """sys.stdin of the simulated process (text layer over the simulated byte stream)"""
+    encoding = "utf-8"
+
+    def __init__(self, raw, bufsize):
+        self.buffer = io.BufferedReader(raw, buffer_size=bufsize)
+
+    def fileno(self):
+        return 0
+
+    def isatty(self):
+        return False
+
+    def read(self, n=-1):
+        return self.buffer.read(n).decode("utf-8", "replace")
+
+    def readline(self):
+        return self.buffer.readline().decode("utf-8", "replace")
+
+    def close(self):
+        pass
+
+
+class SimStdout:
+    """sys.stdout of the simulated process: text written to it (a stray print) lands in the
+    server->client byte stream exactly as it would on the real pipe"""
+    encoding = "utf-8"
+
+    def __init__(self, writer):
+        self.buffer = writer
+
+    def fileno(self):
+        return 1
+
+    def isatty(self):
+        return False
+
+    def write(self, text):
+        self.buffer.write(text.encode("utf-8"))
+        return len(text)
+
+    def flush(self):
+        pass
+
+    def close(self):
+        pass
+
+
 class SimRaw(io.RawIOBase):
     def __init__(self, driver):
         super().__init__()
         self.driver = driver
+
+    def fileno(self):
+        return 0
 
     def readable(self):
         return True
